@@ -11,6 +11,8 @@ from harness.util import R, untraced
 PREFIXES = ['/p', '/p/', '/', '/p/q', '/x/y/']
 MODES = [S_REDIRECT, S_REWRITE, S_STRICT]
 VIA_ADD = [False]
+NO_FACTORY = [False]      # tree-wide: no level has a render factory (routes then render nothing, at every depth)
+DECOY = [False]           # the innermost application is first embedded in an unrelated application
 
 
 class TraceMW(Middleware):
@@ -88,7 +90,7 @@ def level_cfg(sel):
     d['mode'] = MODES[sel % 3]; sel //= 3
     d['inherit'] = bool(sel % 2); sel //= 2
     d['rebind'] = bool(sel % 2); sel //= 2
-    d['factory'] = True          # levels without a render factory: which outer factory takes over is undocumented (outside)
+    d['factory'] = not NO_FACTORY[0]   # MIXED trees (some levels with, some without a factory): which outer factory takes over is undocumented (outside)
     return d
 LEVEL_RADIX = 5 * 7 * 3 * 3 * 2 * 2
 
@@ -115,6 +117,11 @@ def build_nested(levels):
             routes = [Route(p, ep, render=rn, methods=m) for (p, ep, rn, m) in LEAF_ROUTES]
             inner = Application(routes, resources=ins['res'], middlewares=ins['mws'], render_factory=ins['factory'],
                                 error_handler=ins['eh'], slash_mode=lv['mode'])
+            if DECOY[0]:
+                # embedding is non-destructive: an earlier embedding of the same application elsewhere (another factory,
+                # other resources and middlewares) changes nothing for the tree under test
+                Application([('/decoy', inner)], resources={'eh_res': 'decoy', 'r': 'decoy', 's': 'decoy'}, middlewares=_mws([0, 1], 'DECOY'),
+                            render_factory=mk_factory('DECOY'), error_handler=TagEH('DECOY'))
         else:
             child = levels[li + 1]
             app = Application([], resources=ins['res'], middlewares=ins['mws'], render_factory=ins['factory'],
@@ -297,3 +304,23 @@ def confirm_mws2(a, b, prefix_i, res0, res1):
 def confirm_depth3(a, b, c, p1, p2, inh, reb, res_sel):
     r0, r1, r2 = [(0, 0, 1), (1, 0, 1), (0, 1, 0), (1, 1, 1), (2, 0, 2), (0, 0, 0)][res_sel]
     return not _equiv([enc(mws_i=a, res=r0, mode_i=0), enc(p1, b, r1, 1, inh % 2, reb % 2), enc(p2, c, r2, 2, inh // 2, reb // 2)])
+
+
+def ob_reembedded(prefix_i: int, b: int, rebind: bool, nofactory: bool, res1: int) -> bool:
+    """the innermost application was embedded in an unrelated application before; trees whose levels all have / all lack a render factory"""
+    with untraced():
+        NO_FACTORY[0], DECOY[0] = bool(nofactory), True
+        try:
+            return _equiv([enc(mws_i=0, res=1), enc(prefix_i, b, res1, 0, 1, int(rebind))]) and \
+                _equiv([enc(mws_i=1, res=0), enc(1, 0, 1, 0, 1, 0), enc(prefix_i, b, res1, 0, 1, int(rebind))])
+        finally:
+            NO_FACTORY[0], DECOY[0] = False, False
+
+
+def confirm_reembedded(prefix_i, b, rebind, nofactory, res1):
+    NO_FACTORY[0], DECOY[0] = bool(nofactory), True
+    try:
+        return not (_equiv([enc(mws_i=0, res=1), enc(prefix_i, b, res1, 0, 1, int(rebind))]) and
+                    _equiv([enc(mws_i=1, res=0), enc(1, 0, 1, 0, 1, 0), enc(prefix_i, b, res1, 0, 1, int(rebind))]))
+    finally:
+        NO_FACTORY[0], DECOY[0] = False, False
